@@ -18,6 +18,13 @@ theorem Acc.of_cnt {eq : Bool} {s s' : HSt} (h : Cnt eq s s') : Acc eq s [] s' :
   obtain ⟨a, b, c⟩ := h hok
   exact ⟨a, b, fun x => by simpa using c x⟩
 
+/-- visiting the assignment target first touches neither the pending hybrids nor the counter -/
+theorem Acc.regLhs {eq : Bool} {st st' : HSt} {lhs : CExpr} {X : List String}
+    (h : Acc eq (regLhsH st lhs) X st') : Acc eq st X st' := by
+  intro hok
+  have h' := h (fun e => by have := hok e; simpa only [PendOK, regLhsH_hyb, regLhsH_pending] using this)
+  simpa only [regLhsH_hyb, regLhsH_pending] using h'
+
 theorem Acc.refl (eq : Bool) (s : HSt) : Acc eq s [] s := Acc.of_cnt (Cnt.refl eq s)
 
 theorem Acc.congr {eq : Bool} {s s' : HSt} {X Y : List String} (h : Acc eq s X s')
@@ -60,6 +67,8 @@ theorem destWrite_sets {lhs : CExpr} {v : ILPure} {eff : ILEffect} (h : destWrit
   · simp only [Except.ok.injEq] at h; subst h
     exact setTmps_setl_of _ (hv _ (by simp [exprNames]))
   · simp only [Except.ok.injEq] at h; subst h; simp [setTmps]
+  · simp only [Except.ok.injEq] at h; subst h
+    exact setTmps_setl_of _ (hv _ (by simp [exprNames]))
   · cases h
 
 theorem compileAssign_sets {env : CEnv} {lhs : CExpr} {op : String} {ce src : CE} {eff : ILEffect}
@@ -107,7 +116,7 @@ theorem compileStmtH_acc : (s : CStmt) → {st st' : HSt} → {eff : Option ILEf
       obtain ⟨c1, s1, eff0, src, h1, h2, rfl, _, rfl⟩ := invS_assign h
       simp only [stmtNames, List.mem_append] at hv
       have hs := compileAssign_sets h2 (fun n hn => hv n (Or.inl hn))
-      have hE := exprAcc eq env (fun n hn => hv n (Or.inr hn)) (by simpa [noConstTernS] using hd) h1
+      have hE := (exprAcc eq env (fun n hn => hv n (Or.inr hn)) (by simpa [noConstTernS] using hd) h1).regLhs
       refine hE.chk [] _ _ _ _ (fun x => ?_) (fun x => ?_)
       · simp [hs]
       · cnt_side
@@ -116,7 +125,7 @@ theorem compileStmtH_acc : (s : CStmt) → {st st' : HSt} → {eff : Option ILEf
       simp only [stmtNames, List.mem_append] at hv
       have hsI := compileAssign_sets h2 (fun n hn => hv n (Or.inl (Or.inr hn)))
       have hsO := compileAssign_sets h3 (fun n hn => hv n (Or.inl (Or.inl hn)))
-      have hE := exprAcc eq env (fun n hn => hv n (Or.inr hn)) (by simpa [noConstTernS] using hd) h1
+      have hE := (exprAcc eq env (fun n hn => hv n (Or.inr hn)) (by simpa [noConstTernS] using hd) h1).regLhs.regLhs
       have a1 := hE.chk [] (setTmps (chk s1 effI []).1) effI [] false (fun x => by simp [hsI]) (fun x => by simp)
       have a2 := a1.chk (setTmps (chk s1 effI []).1)
         (setTmps (chk s1 effI []).1 ++ setTmps (chk (chk s1 effI []).2 effO []).1) effO [] false
